@@ -11,12 +11,19 @@
 package main
 
 import (
+	"context"
 	"fmt"
 	"os"
 	"path/filepath"
 	"sort"
 	"strconv"
 	"strings"
+	"time"
+
+	"github.com/apache/skywalking-banyandb/api/common"
+	"github.com/apache/skywalking-banyandb/banyand/internal/storage"
+	"github.com/apache/skywalking-banyandb/pkg/fs"
+	"github.com/apache/skywalking-banyandb/pkg/timestamp"
 
 	"github.com/apache/skywalking-banyandb/banyand/internal/verifdrv/drv"
 	"github.com/apache/skywalking-banyandb/banyand/measure"
@@ -182,10 +189,136 @@ func main() {
 		runHistory(os.Args[2], fresh, os.Args[4:])
 		return
 	}
+	if len(os.Args) > 1 && os.Args[1] == "segrun" {
+		k, _ := strconv.Atoi(os.Args[3])
+		segRun(os.Args[2], k)
+		return
+	}
 	drv.Run(func(f []string) string {
 		if len(f) >= 2 && f[0] == "rec" {
 			return recoverDir(f)
 		}
+		if len(f) >= 2 && f[0] == "segrec" {
+			return segRecover(f)
+		}
 		return "bad-op"
 	})
+}
+
+// ---------------------------------------------------------------------------------------------------------
+// segment stream: the real storage.OpenTSDB / segmentController.create / open with a table that only writes one
+// durable marker file into its shard directory.
+
+type stbl struct{}
+
+func (stbl) Close() error                            { return nil }
+func (stbl) Collect(storage.Metrics)                 {}
+func (stbl) TakeFileSnapshot(string) (bool, error) { return true, nil }
+
+func segDay(i int) time.Time {
+	return time.Date(2024, 5, 1, 0, 0, 0, 0, time.UTC).AddDate(0, 0, i)
+}
+
+func segOpen(root string, clockDay int, writeRows bool) (storage.TSDB[*stbl, struct{}], error) {
+	clock := timestamp.NewMockClock()
+	clock.Set(segDay(clockDay))
+	ctx := timestamp.SetClock(context.Background(), clock)
+	ctx = common.SetPosition(ctx, func(p common.Position) common.Position { p.Database = "d"; return p })
+	opts := storage.TSDBOpts[*stbl, struct{}]{
+		Location:        filepath.Join(root, "db"),
+		SegmentInterval: storage.IntervalRule{Unit: storage.DAY, Num: 1},
+		TTL:             storage.IntervalRule{Unit: storage.DAY, Num: 300},
+		ShardNum:        1,
+		TSTableCreator: func(fileSystem fs.FileSystem, tabRoot string, _ common.Position, _ *logger.Logger, _ timestamp.TimeRange, _ struct{}, _ any) (*stbl, error) {
+			// the table's durable content: one file, written and fsynced, its directory entry fsynced
+			marker := filepath.Join(tabRoot, "data")
+			if _, err := os.Stat(marker); err != nil && writeRows {
+				if _, werr := fileSystem.Write([]byte("rows"), marker, 0o600); werr != nil {
+					return nil, werr
+				}
+				fileSystem.SyncPath(tabRoot)
+			}
+			return &stbl{}, nil
+		},
+		DisableRotation:    true,
+		SegmentIdleTimeout: time.Hour,
+	}
+	return storage.OpenTSDB(ctx, opts, nil, "g")
+}
+
+// segRun creates k segments (one per day), each followed by the creation of its shard-0 table; marks "<i>:S"
+// before create() and "<i>:T" before the table.
+func segRun(root string, k int) {
+	db, err := segOpen(root, k, true)
+	if err != nil {
+		panic(err)
+	}
+	fmt.Println("open ok")
+	for i := 0; i < k; i++ {
+		mark(fmt.Sprintf("%d:S", 2*i))
+		seg, cerr := db.CreateSegmentIfNotExist(segDay(i).Add(6 * time.Hour))
+		if cerr != nil {
+			panic(cerr)
+		}
+		fmt.Printf("S %s\n", filepath.Base(seg.Location()))
+		mark(fmt.Sprintf("%d:T", 2*i+1))
+		if _, terr := seg.CreateTSTableIfNotExist(common.ShardID(0)); terr != nil {
+			panic(terr)
+		}
+		seg.DecRef()
+		fmt.Printf("T %s\n", filepath.Base(seg.Location()))
+	}
+	mark("end")
+	_ = db.Close()
+}
+
+func segList(db storage.TSDB[*stbl, struct{}]) string {
+	ss, err := db.SelectSegments(timestamp.NewInclusiveTimeRange(segDay(-1000), segDay(1000)), true)
+	if err != nil {
+		return "SELECT-ERR " + err.Error()
+	}
+	var names []string
+	for _, sg := range ss {
+		n := filepath.Base(sg.Location())
+		tabs, _ := sg.Tables()
+		names = append(names, fmt.Sprintf("%s:%d", n, len(tabs)))
+		sg.DecRef()
+	}
+	sort.Strings(names)
+	return strings.Join(names, ",")
+}
+
+// segRecover: segrec <root> [cont]  ->  OK segs=<dir>:<tables>,... tree=<listing> | ERR <open error>
+func segRecover(f []string) string {
+	root := f[1]
+	db, err := segOpen(root, 20, false)
+	if err != nil {
+		return "ERR " + strings.ReplaceAll(err.Error(), "\n", " ")
+	}
+	res := "OK segs=" + segList(db)
+	_ = db.Close()
+	res += " tree=" + listTree(filepath.Join(root, "db"))
+	if len(f) > 2 && f[2] == "cont" {
+		// usable afterwards: one more segment with a table, stop, start again
+		db2, err2 := segOpen(root, 20, true)
+		if err2 != nil {
+			return res + " cont:ERR " + strings.ReplaceAll(err2.Error(), "\n", " ")
+		}
+		seg, cerr := db2.CreateSegmentIfNotExist(segDay(15).Add(6 * time.Hour))
+		if cerr != nil {
+			return res + " cont:CREATE-ERR " + cerr.Error()
+		}
+		if _, terr := seg.CreateTSTableIfNotExist(common.ShardID(0)); terr != nil {
+			return res + " cont:TABLE-ERR " + terr.Error()
+		}
+		seg.DecRef()
+		_ = db2.Close()
+		db3, err3 := segOpen(root, 20, false)
+		if err3 != nil {
+			return res + " cont:ERR " + strings.ReplaceAll(err3.Error(), "\n", " ")
+		}
+		res += " cont:segs=" + segList(db3)
+		_ = db3.Close()
+	}
+	return res
 }
